@@ -12,13 +12,15 @@ from checks.sibcomp import WB, API, request, split_reply, vbits
 from vlib import paths
 from vlib.proto import hexs
 
-LEAN_TARGETS = ["LyModel.Props.C04"]
+LEAN_TARGETS = ["LyModel.Props.C04", "LyModel.Props.C04Rb"]
 AUDIT = "Audit/C04.lean"
 GENERATED = ["Consts"]
 ASSUMPTIONS = [
     "lyd_hash is modelled as injective on (schema, key) (abstract hash keys): 32-bit collisions are outside the model",
-    "the red-black tree of a system-ordered (leaf-)list is abstracted by its in-order sequence = the instance block; the "
-    "white-box harness checks that equation (and the red-black invariants) on the real structure after every op",
+    "in the sibling-list model the red-black tree of a system-ordered (leaf-)list is abstracted by its in-order sequence = the "
+    "instance block; stage 2 (Props/C04Rb) proves that for insertion (Rb.insert mirrors rb_insert_node/rb_insert_color, shapes "
+    "compared with the real tree); removal (rb_remove*) is not modelled — the white-box harness checks in-order = sibling order "
+    "and the red-black invariants on the real structure after every op",
     "key types of the generated schemas: int32, uint8, string (type plugins' sort callbacks: numeric / strcmp)",
     "ops outside the model's fragment (lyd_move_nodes of a multi-node list, dup, merge, validate, implicit, opaque nodes "
     "through insert_before/after, second key leaf) are judged by the C-side battery only",
@@ -36,6 +38,10 @@ WITNESS = {
     "F52": ("S1", ["new,1,-,saa:c,-", "new,2,1,saa:sl,31", "new,3,1,saa:a,78", "new,4,1,saa:b,78", "new,5,1,saa:e,78", "new,6,2,saa:k,37"], None),
     # implicit top-level node of the second module inserted relative to the module's first node
     "F53": ("S1", ["new,7,-,saa:c,-", "new,11,-,sbb:tb,42", "ins_sibling,11,7", "validate,7"], None),
+    # lyd_move_nodes: the first source node is not system-ordered, a later one is and has a leader in the destination
+    "F54": ("S3", ["new,1,-,scc:tl,30", "new,2,-,scc:c,-", "ins_sibling,1,2", "new,3,-,scc:c,-", "new,4,-,scc:tl,35", "ins_sibling,4,3", "ins_sibling,3,1"], None),
+    # lyd_merge_tree with two opaque nodes in the source: NULL dereference in lyht_dup_inst_ht_equal_cb
+    "F55": ("S3", ["new,8,-,scc:c,-", "new,4,-,scc:c,-", "newopaq,1,8,zz,-", "new,6,4,scc:dv,3130", "newopaq,11,8,a,76", "merge_opaq,8,4,4"], None),
 }
 
 
@@ -46,7 +52,7 @@ def classify(component, what, case):
     if component != "sib":
         return None
     a = case.get("attrib")
-    return a if a in ("F19", "F50", "F51", "F52", "F53") else None
+    return a if a in ("F19", "F50", "F51", "F52", "F53", "F54", "F55") else None
 
 
 # ------------------------------------------------------------------------------------------------ helpers
@@ -213,8 +219,8 @@ def base_state(sn, big):
 
 
 def exhaustive_scripts(cx):
-    """all scripts of <= 2 ops over the full alphabet and all 3-op scripts (quick: over a reduced alphabet; thorough: full;
-    thorough additionally 4 ops over the reduced alphabet) after each base state (3 schemas x 2 hash-table regimes)"""
+    """all scripts of <= 2 ops over the full alphabet (40-50 ops), all 3-op scripts over a reduced alphabet (quick: 14 ops,
+    thorough: 22), thorough additionally all 4-op scripts over 9 ops — after each base state (3 schemas x 2 hash-table regimes)"""
     out = []
     for sn in ("S1", "S2", "S3"):
         for big in (False, True):
@@ -226,11 +232,10 @@ def exhaustive_scripts(cx):
                 out.append((sn, p + [a]))
             for a, b in itertools.product(alpha, repeat=2):
                 out.append((sn, p + [a, b]))
-            a3 = alpha if cx.tier == "thorough" else red
-            for t in itertools.product(a3, repeat=3):
+            for t in itertools.product(red, repeat=3):
                 out.append((sn, p + list(t)))
             if cx.tier == "thorough":
-                for t in itertools.product(red[:12], repeat=4):
+                for t in itertools.product(red[:9], repeat=4):
                     out.append((sn, p + list(t)))
     return out
 
@@ -240,7 +245,7 @@ def perm_law(cx, schs):
     non-list nodes), under a parent with < 4 and >= 4 children; ids are stripped from the dump, equal keys are allowed."""
     rng = cx.sub_rng("perm")
     cases, meta = [], []
-    for n in range(cx.n(150, 3000)):
+    for n in range(cx.n(150, 2000)):
         sn = rng.choice(["S1", "S2", "S3"])
         sch = schs[sn]
         cont = [e for e in sch.ents if e["parent"] is None and e["kind"] == "c"][0]
@@ -257,11 +262,13 @@ def perm_law(cx, schs):
             order = list(items)
             if v:
                 rng.shuffle(order)
-            ops = [sibcomp.op_new(1, None, sch.qname(cont), b"")]
+            # container 1 = the tree under test, container 2 = a second tree nodes are created in and moved from
+            ops = [sibcomp.op_new(1, None, sch.qname(cont), b""), sibcomp.op_new(2, None, sch.qname(cont), b"")]
             for j, (e, val) in enumerate(order):
                 if v == 2 and rng.random() < 0.5:
-                    # build as a free node and insert it afterwards (lyd_insert_child path) — top-level schema nodes only
-                    ops.append(sibcomp.op_new(10 + j, 1, sch.qname(e), val))
+                    # created elsewhere, then moved: lyd_unlink + lyd_insert_child path instead of lyd_new_*
+                    ops.append(sibcomp.op_new(10 + j, 2, sch.qname(e), val))
+                    ops.append("ins_child,%d,1" % (10 + j))
                 else:
                     ops.append(sibcomp.op_new(10 + j, 1, sch.qname(e), val))
             variants.append(ops)
@@ -287,6 +294,32 @@ def perm_law(cx, schs):
                     {"schema": sn, "orders": variants, "finals": finals, "attrib": None})
 
 
+def rb_shapes(cx, schs):
+    """Stage 2: shape (pre-order, colours) and in-order of the red-black tree behind a system-ordered leaf-list after inserting
+    a key sequence — real tree (white-box walk) vs Rb.insert; all sequences of length <= 6 over 3 keys, random longer ones."""
+    sch = schs["S1"]
+    rng = cx.sub_rng("rb")
+    seqs = [list(t) for n in range(1, 7) for t in itertools.product([1, 2, 3], repeat=n)]
+    for _ in range(cx.n(600, 6000)):
+        n = rng.choice([3, 5, 8, 13, 21, 40])
+        dom = rng.choice([3, 8, 30, 1000])
+        seqs.append([rng.randrange(-dom, dom) for _ in range(n)])
+    lines = ["%d sib rb c %s %s %s" % (i, sch.desc_tok, sch.yang_tok, ",".join(str(k) for k in q)) for i, q in enumerate(seqs)]
+    ri = cx.run_impl(WB, lines, component="sib")
+    rm = cx.run_model(lines)
+    for i, q in enumerate(seqs):
+        a, b = ri.get(str(i), ["err", "NoReply"]), rm.get(str(i), ["err", "NoReply"])
+        cx.count(("rb", tuple(q)), len(q) > 1, "sib:rb-shape")
+        if a != b:
+            cx.disagree("sib-rb", lines[i][:60] + " ... " + ",".join(str(k) for k in q)[:200], a[:60], b[:60])
+            continue
+        # law on the implementation: in-order of the real tree = sibling order = sorted, ties in insertion order
+        if a[0] == "ok" and "|" in a:
+            order = [int(x) for x in a[a.index("|") + 1:]]
+            if order != sorted(q):
+                cx.fail("sib", "instances of a system-ordered leaf-list not sorted after insertions", {"keys": q, "order": order, "attrib": None})
+
+
 def corpus_scripts():
     d = os.path.join(paths.CORPUS, "sib")
     out = []
@@ -303,9 +336,10 @@ def run(cx):
     schs = sibcomp.load_schemas(cx)
     cx.rule("sib: one case = one edit script (ops new/newopaq/ins_child/ins_sibling/ins_before/ins_after/unlink/free/change/find over "
             "<= 12 identities, 3 fixed schema sets: int32/string/uint8 keys, system- and user-ordered lists and leaf-lists, key-less and "
-            "state lists, augmenting module, top-level module order); exhaustive: every script of <= 2 ops (thorough: 3) over a 40-50 op "
-            "alphabet and every 3-op (thorough: 4-op) script over a reduced alphabet after 6 base states (parents with < 4 and >= 4 "
-            "children); random scripts of length 30 (thorough: up to 200); non-trivial = distinct script with at least one successful "
+            "state lists, augmenting module, top-level module order); exhaustive: every script of <= 2 ops over a 40-50 op alphabet, "
+            "every 3-op script over a reduced alphabet (14 ops; thorough 22) and, thorough, every 4-op script over 9 ops, after 6 base "
+            "states (parents with < 4 and >= 4 children); random scripts of length 30 (thorough: up to 200); non-trivial = distinct "
+            "script with at least one successful "
             "state change; the consistency battery runs after EVERY op")
 
     # 1. witnesses of the listed findings; F19 also decides which lyd_change_node_value the model mirrors
@@ -336,19 +370,21 @@ def run(cx):
     differential_scripts(cx, schs, ex, variant, kind="exhaustive", quick_search=True)
     rng = cx.sub_rng("random")
     rnd = []
-    for _ in range(cx.n(1300, 30000)):
+    for _ in range(cx.n(1000, 8000)):
         sn = rng.choice(["S1", "S2", "S3"])
         length = 30 if cx.tier == "quick" else rng.choice([30, 60, 120, 200])
         rnd.append((sn, sibcomp.random_script(rng, schs[sn], length, nids=rng.choice([6, 12]), prefill=rng.choice([0, 2, 5, 8]))))
     differential_scripts(cx, schs, rnd, variant, kind="random", quick_search=(cx.tier == "thorough"))
     # the same through the public-API-only harness (no white-box verdict bits there; dumps and return codes must agree)
-    differential_scripts(cx, schs, rnd[:cx.n(200, 3000)] + ex[:cx.n(300, 3000)], variant, harness=API, kind="api")
+    differential_scripts(cx, schs, rnd[:cx.n(150, 1500)] + ex[:cx.n(250, 1500)], variant, harness=API, kind="api")
+
+    rb_shapes(cx, schs)
 
     # 3. laws on the implementation
     perm_law(cx, schs)
     rng = cx.sub_rng("law")
     law = []
-    for _ in range(cx.n(250, 6000)):
+    for _ in range(cx.n(200, 2000)):
         sn = rng.choice(["S1", "S2", "S3"])
         law.append((sn, sibcomp.random_script(rng, schs[sn], 25 if cx.tier == "quick" else rng.choice([25, 60]), nids=12,
                                                prefill=rng.choice([0, 2, 5, 8]), law=True)))
